@@ -202,3 +202,55 @@ def strip():
             if got != want:
                 return _report('%s(%r)' % (name, lit), text, got, want)
     print('REPLAY: not reproduced')
+
+
+# ---------------------------------------------------------------- parser: index bookkeeping and error behaviour on a concrete family
+
+def parser():
+    """valid strings must evaluate to their index-notation reading (free indices sorted alphabetically by `@`);
+    rule-violating strings must raise ExpressionSyntaxError -- not be accepted, not raise anything else"""
+    import numpy
+    from nutils import function
+    from nutils.expression_v2 import Namespace, ExpressionSyntaxError
+    rng = numpy.random.RandomState(0)
+    V = dict(a=rng.rand(3), b=rng.rand(3), c=rng.rand(2), A=rng.rand(3, 3), B=rng.rand(3, 3), C=rng.rand(2, 3), T=rng.rand(3, 3, 3), s=numpy.array(2.), t=numpy.array(3.))
+    ns = Namespace()
+    for k, v in V.items():
+        setattr(ns, k, function.Array.cast(v))
+    a, b, c, A, B, C, T, s, t = (V[k] for k in 'abcABCTst')
+    E = numpy.einsum
+    valid = [('A_ij + B_ji', A + B.T), ('A_ij - B_ij', A - B), ('-A_ij + B_ij', B - A), ('-a_i', -a), ('a_i + b_i - a_i', b), ('A_ji + B_ij', A.T + B),
+             ('T_ijk + T_kij', T + E('kij->ijk', T)), ('T_ijk + T_jki', T + E('jki->ijk', T)), ('T_ijk - T_kji', T - E('kji->ijk', T)), ('T_kij + T_ijk', E('kij->ijk', T) + T),
+             ('a_i b_i', a @ b), ('A_ij a_j', A @ a), ('a_i b_j', numpy.outer(a, b)), ('b_j a_i', numpy.outer(a, b)), ('a_i A_ij b_j', a @ A @ b), ('A_ii', numpy.trace(A)),
+             ('T_iij a_j', E('iij,j->', T, a)), ('T_iji', E('iji->j', T)), ('a_j C_ij', C @ a), ('C_ij a_j + c_i', C @ a + c), ('A_ij a_i b_j + s', a @ A @ b + s),
+             ('s a_i / t', s * a / t), ('a_i / s t', a / (s * t)), ('a_i / b_j b_j', a / (b @ b)), ('a_i b_i / a_j a_j', (a @ b) / (a @ a)), ('2 a_i', 2 * a), ('a_i^2', a**2),
+             ('s^2 a_i', 4 * a), ('a_i^-2', a**-2.), ('a_i^(s + t)', a**5), ('-s^2', -4.), ('a_1', a[1]), ('A_i0', A[:, 0]), ('A_0i', A[0]), ('A_1i a_i', A[1] @ a), ('T_i2i', E('ii->', T[:, 2, :])),
+             ('T_0ij + A_ji', T[0] + A.T), ('T_i1j A_ij', (T[:, 1, :] * A).sum()), ('(a_i + b_i) a_i', (a + b) @ a), ('(A_ij + B_ji) a_j', (A + B.T) @ a), ('a_i (b_j b_j)', a * (b @ b)),
+             ('A_ij B_jk', A @ B), ('A_ij B_kj', A @ B.T), ('A_ik B_kj + A_ij', A @ B + A), ('  a_i  ', a), ('a_i  b_i', a @ b)]
+    invalid = ['a_i + A_ij', 'A_ij + a_i', 'a_i + c_i', 'A_ij + C_ij', 'C_ij + A_ij', 'A_ij + A_ik', 'a_i a_i a_i', 'A_ii a_i', 'a_i A_ii', 'T_iii', 'a_i / b_j', 'a_i b_i / a_i', 's / s / s',
+               'a_i a_i / b_i b_i', 'a_i / b_i b_i', '(a_i a_i) b_i', 'a_i (b_i b_i)', 'a_i^(b_i b_i)', 'x', 'a_ij', 'A_i', 'a_3', 'C_2i', 'a_A', 'a_i 2', '2 2 a_i', 'a_i + -b_i', 'a_i +b_i', 'a_i+ b_i', 'a_i+b_i', 'a_i -b_i',
+               'a_i/ s', 'a_i /s', '', ' ', '-', '(a_i', 'a_i)', '[a_i)', 'a_i (', '() a_i', 'a_i^b_j', 'a_i^2^2', 'a_i ^2', 'a_i^ 2', 'a_i^', '^2', 'a_i + ', ' + a_i', 'a_i - ', 'a_i / ', ' / s', 'a_i^x', 'f(a_i)', 'a_i c_i']
+    for expr, want in valid:
+        try:
+            got = numpy.asarray((expr @ ns).eval())
+        except Exception as e:
+            print('%r raised %s: %s' % (expr, type(e).__name__, str(e).split(chr(10))[0][:100]))
+            print('REPLAY: VIOLATION-CONFIRMED a valid expression is rejected')
+            return
+        if got.shape != numpy.shape(want) or not numpy.allclose(got, want):
+            print('%r evaluates to an array of shape %s that differs from its index-notation reading (shape %s)' % (expr, got.shape, numpy.shape(want)))
+            print('REPLAY: VIOLATION-CONFIRMED')
+            return
+    for expr in invalid:
+        try:
+            got = expr @ ns
+        except ExpressionSyntaxError:
+            continue
+        except Exception as e:
+            print('%r raised %s instead of ExpressionSyntaxError: %s' % (expr, type(e).__name__, str(e)[:100]))
+            print('REPLAY: VIOLATION-CONFIRMED a rule-violating string does not raise the expression syntax error')
+            return
+        print('%r (violates a documented rule) was accepted: shape %s' % (expr, got.shape))
+        print('REPLAY: VIOLATION-CONFIRMED an invalid expression is silently evaluated')
+        return
+    print('REPLAY: not reproduced')
